@@ -42,6 +42,9 @@ type Session struct {
 	failCount map[string]int
 	cons      []string
 	quiet     bool
+	// BasePathFS: the base path (must never show up in results or errors) and whether it did during the call
+	BasePath string
+	leak     bool
 }
 
 // Cred is the acting user of the session (nil = administrator).
@@ -246,8 +249,35 @@ func (s *Session) abstractName(real string) string {
 	return real
 }
 
+// checkLeak looks for the base path of a BasePathFS in the path fields of an error.
+func (s *Session) checkLeak(err error) {
+	if s.BasePath == "" || err == nil {
+		return
+	}
+
+	var fields []string
+
+	switch e := err.(type) {
+	case *fs.PathError:
+		fields = []string{e.Path}
+	case *os.LinkError:
+		fields = []string{e.Old, e.New}
+	}
+
+	for _, f := range fields {
+		s.leakIn(f)
+	}
+}
+
+func (s *Session) leakIn(str string) {
+	if s.BasePath != "" && strings.Contains(str, s.BasePath) {
+		s.leak = true
+	}
+}
+
 // abstractPath maps the real temporary names inside a concrete path to their abstract names.
 func (s *Session) abstractPath(t string) Path {
+	s.leakIn(t)
 	p := ParsePath(t)
 	for i, c := range p.Parts {
 		p.Parts[i] = s.abstractName(c)
@@ -324,7 +354,10 @@ func (s *Session) exec(c Call, res *Res) {
 	p := s.render(c.P)
 	q := s.render(c.Q)
 
-	setErr := func(err error) { res.Err = ErrName(err) }
+	setErr := func(err error) {
+		res.Err = ErrName(err)
+		s.checkLeak(err)
+	}
 
 	switch c.Op {
 	case "mkdir":
